@@ -121,7 +121,7 @@ def cell_scenario(cell, seed, rep):
     elif sampler == "emcee_smc":
         sk = {"adaptive": True, "target_efficiency": 0.5, "sampler_kwargs": {"nsteps": 4, "progress": False}}
     elif sampler == "minipcn":
-        sk = {"n_steps": 40, "last_step_only": True}
+        sk = {"n_steps": 150, "last_step_only": True}
     tight = cell["proposal"] == "tight"
     rr = rng_from(seed * 1000003 + rep + 1)
     scn = default_scenario(
@@ -224,7 +224,7 @@ def run_case(case, workdir):
     means = np.asarray(means)
     vars_ = np.asarray(vars_)
     allow_m = {"importance": 0.02, "smc_fixed": 0.06, "smc_adaptive": 0.06, "emcee_smc": 0.08, "minipcn": 0.15}[sampler]
-    allow_v = {"importance": 0.05, "smc_fixed": 0.10, "smc_adaptive": 0.10, "emcee_smc": 0.15, "minipcn": 0.25}[sampler]
+    allow_v = {"importance": 0.05, "smc_fixed": 0.10, "smc_adaptive": 0.10, "emcee_smc": 0.15, "minipcn": 0.35}[sampler]
     for i in range(t.dims):
         if t.factor[i] == "vm":
             continue
